@@ -19,6 +19,7 @@ EI = "program_structure/src/intermediate_representation/expression_impl.rs"
 SI = "program_structure/src/intermediate_representation/statement_impl.rs"
 VM = "program_structure/src/intermediate_representation/value_meta.rs"
 CC = "program_analysis/src/constant_conditional.rs"
+IRF_ = "program_structure/src/intermediate_representation/ir.rs"
 
 # opcode -> (field operation, fallible, boolean result)
 INFIX_FE = {
@@ -103,6 +104,134 @@ def analyse_value_arm(body):
     return res
 
 
+MAF = "circom_algebra/src/modular_arithmetic.rs"
+
+
+def eval_operator_table(ctx, R, ty, fn, fe_tab, bool_tab, arity):
+    """`<opcode>::propagate_values` evaluated for every operator x operand kinds (unknown / field element / boolean, for
+    booleans both truth values) x outcome of the field operation (Ok / Err for the fallible ones).  The field operations
+    are opaque: the result must be *the reference operation applied to (left, right, prime)*.  False when the function is
+    outside the evaluator's subset."""
+    import itertools
+
+    import passeval
+    from finfun import E, NONE, S, Unsupported
+    from passeval import O, V
+
+    try:
+        w = passeval.PassWorld([IRF_, VM, EI], EI)
+    except Exception:
+        return False
+    ops = w.enums.get(ty)
+    if not ops:
+        return False
+    fallible = {f["name"] for q, f in fns_in_file(MAF) if (f["sig"].get("output") or "").replace(" ", "").startswith("Result<")}
+    P = O("prime")
+    envv = O("value_environment", prime=P)
+    a_, b_ = O("left"), O("right")
+    roles = []
+    for i in fn["sig"]["inputs"]:
+        if i.get("self"):
+            roles.append("self")
+            continue
+        t_ = i["ty"].replace(" ", "")
+        if t_ in ("Option<&ValueReduction>", "Option<ValueReduction>", "&Option<ValueReduction>"):
+            roles.append("operand")
+        elif t_ in ("&ValueEnvironment",):
+            roles.append("env")
+        elif t_ in ("&BigInt",):
+            roles.append("prime")
+        else:
+            return False
+    if roles.count("operand") != arity or roles[0] != "self":
+        return False
+    kinds = ["none", "field", "true", "false"]
+    n = 0
+    bad = {}
+    for op in ops:
+        for ks in itertools.product(kinds, repeat=arity):
+            for fail in (False, True):
+                calls_made = []
+
+                def field_fn(name, args, fail=fail, calls_made=calls_made):
+                    calls_made.append((name, args))
+                    r = ("K", name, tuple(args))
+                    if name in fallible:
+                        return S("Err", O("arithmetic-error")) if fail else S("Ok", r)
+                    return r
+
+                w.opaque = (("modular_arithmetic::", field_fn),)
+                vals = []
+                opaque_vals = [a_, b_]
+                for j, kd in enumerate(ks):
+                    if kd == "none":
+                        vals.append(NONE)
+                    elif kd == "field":
+                        vals.append(S("Some", V("ValueReduction", "FieldElement", value=opaque_vals[j])))
+                    else:
+                        vals.append(S("Some", V("ValueReduction", "Boolean", value=(kd == "true"))))
+                argv, vi = [], 0
+                for r_ in roles:
+                    if r_ == "self":
+                        argv.append(E(ty, op))
+                    elif r_ == "operand":
+                        argv.append(vals[vi])
+                        vi += 1
+                    elif r_ == "env":
+                        argv.append(envv)
+                    else:
+                        argv.append(P)
+                try:
+                    res = w.call_fn(fn, argv)
+                except Unsupported as u:
+                    ctx.note("%s::propagate_values is outside the evaluator's subset (%s): shape obligations apply" % (ty, u))
+                    return False
+                except passeval.Panic as p_:
+                    bad.setdefault("%s/%s/no-panic" % (ty, op), str(p_))
+                    continue
+                n += 1
+                # expected
+                operands = [opaque_vals[j] for j in range(arity)]
+                if all(kd == "field" for kd in ks) and op in fe_tab:
+                    fname = fe_tab[op] if arity == 1 else fe_tab[op][0]
+                    is_bool = False if arity == 1 else fe_tab[op][2]
+                    raw = ("K", fname, tuple(operands + [P]))
+                    if fname in fallible and fail:
+                        want = NONE
+                    elif is_bool:
+                        want = S("Some", V("ValueReduction", "Boolean", value=("K", "as_bool", (raw, P))))
+                    else:
+                        want = S("Some", V("ValueReduction", "FieldElement", value=raw))
+                elif all(kd in ("true", "false") for kd in ks) and op in bool_tab:
+                    bs = [kd == "true" for kd in ks]
+                    v_ = (not bs[0]) if arity == 1 else ((bs[0] and bs[1]) if bool_tab[op] == "&&" else (bs[0] or bs[1]))
+                    want = S("Some", V("ValueReduction", "Boolean", value=v_))
+                else:
+                    want = NONE
+                if res != want:
+                    bad.setdefault("%s/%s" % ("infix" if arity == 2 else "prefix", op), "operands %s%s: evaluates to %s, reference %s" % (list(ks), " (operation fails)" if fail else "", _show(res), _show(want)))
+    ctx.floor(R, "%s evaluation worlds" % ty, n, 20 if arity == 1 else 500)
+    for op in ops:
+        key = "%s/%s" % ("infix" if arity == 2 else "prefix", op)
+        kp = "%s/%s/no-panic" % (ty, op)
+        ctx.check(R, key + "/table", key not in bad and kp not in bad, bad.get(key) or bad.get(kp) or "for every combination of operand kinds the value is the reference operation on (left, right, prime), a boolean through as_bool for comparisons, and nothing when the operation fails or the kinds do not fit", site(EI, fn))
+    return True
+
+
+def _show(v):
+    if isinstance(v, tuple) and v and v[0] == "S" and v[1] == "Some":
+        return "Some(%s)" % _show(v[2][0])
+    if isinstance(v, tuple) and v and v[0] == "V":
+        return "%s{%s}" % (v[2], ", ".join("%s: %s" % (k, _show(x)) for k, x in v[3].items()))
+    if isinstance(v, tuple) and v and v[0] == "K":
+        return "%s(%s)" % (v[1], ", ".join(_show(x) for x in v[2]))
+    if isinstance(v, tuple) and v and v[0] == "O":
+        return v[1]
+    if isinstance(v, tuple) and v and v[0] == "E":
+        return v[2]
+    return str(v)
+
+
 def rule_operator_table(ctx):
     R = "C06.1"
     ctx.rule(R, "every operator is evaluated by its own field operation on (left, right, prime) in that order; comparison results become booleans through as_bool; fallible operations yield a value only on Ok; field elements and booleans are never mixed")
@@ -110,6 +239,8 @@ def rule_operator_table(ctx):
         fn = find_fn(EI, "propagate_values", ty)
         if fn is None:
             ctx.missing(R, ty + "::propagate_values")
+            continue
+        if eval_operator_table(ctx, R, ty, fn, fe_tab, bool_tab, arity):
             continue
         env = let_env(fn["body"])
         pname = None
